@@ -29,7 +29,7 @@ def main(chk):
                     'cbmc 6.11 --floatbv with its models of floor/ceil/fabs; z3 for the exact-real and integer obligations']
     chk.assumptions += ['O1/O2 inputs: all finite, |coordinate| <= 1e6, 1e-9 <= voxel size <= 1e6, min < max per axis (the code\'s own precondition), grid extent/voxel size <= 1e6, point inside [min,max] per axis',
                         'vector growth (_M_fill_insert / _M_default_append) is stubbed in the arithmetic harnesses O1-O3: allocation size is not their subject']
-    chk.bounds = {'O1': 'no loops; one symbolic box, voxel size and point; cbmc time limit %ds per axis' % (120 if quick else 1200), 'O3': 'voxel counts < 2^21 per axis, indices < counts',
+    chk.bounds = {'O1': 'no loops; one symbolic box, voxel size and point; cbmc time limit %ds per obligation' % (240 if quick else 600), 'O3': 'voxel counts < 2^21 per axis, indices < counts',
                   'O4/O5': 'one stored point and one query point within one voxel size; one axis symbolic over a grid of <= 3 voxels, the other two axes symbolic within one voxel; voxel size concrete (1 quick; 1, 1/1024, 37/8 thorough), |min| <= 1e3; exact reals'}
 
     # ---- translator validation --------------------------------------------------------------------------
